@@ -200,6 +200,7 @@ func runC12(c *hx.Ctx) {
 	keepAlive(o, c)
 	willBehindBlockedWrite(o, c)
 	willObservers(o, c)
+	r5BackendC12(o, c) // r5_backend_c12.go: backend shutdown as the cause, the dying client's own persistent session as the observer
 	retainedWillDuringSubscribe(o, c)
 	// clean DISCONNECT: no will, whatever the observers do
 	{
